@@ -4,7 +4,7 @@
    finishes") is refuted in the stated configuration class by the known findings (hang with an ordered
    standalone buffer, LIFO deadlock with early transport disabled) and otherwise decided by exploration. *)
 From Coq Require Import List ZArith Bool.
-From JSL Require Import Base.Res Base.ListX SM.Types SM.Util SM.Handler SM.Step SM.Inv SMP.Offers SM.ExampleDeadlock SM.ExampleHang SM.Middleware SMP.Reflect Props.C05 Gen.Kernels Gen.KernelsEq SMP.StepInv SMP.LiftProv SMP.ProvBatch SMP.OffersValid SMP.Clock.
+From JSL Require Import Base.Res Base.ListX SM.Types SM.Util SM.Handler SM.Step SM.Inv SMP.Offers SM.ExampleDeadlock SM.ExampleUnready SM.Events SM.ExampleHang SM.Middleware SMP.Reflect Props.C05 Gen.Kernels Gen.KernelsEq SMP.StepInv SMP.LiftProv SMP.ProvBatch SMP.OffersValid SMP.Clock.
 Import ListNotations.
 
 Theorem C11_ready_only :
@@ -68,6 +68,44 @@ Proof.
   split; [reflexivity|]. split; [vm_compute; reflexivity|]. intros fuel a. reflexivity.
 Qed.
 Print Assumptions C11_refuted.
+
+(* The last sentence of the property - "with early transport disabled an AGV is only ever dispatched to a job that is ready for
+   pickup" - is FALSE of the faithful model too. SM/ExampleUnready.v is a compiled document inside the class (3 jobs, every
+   capacity 3, early transport disabled; zero travel times, LIFO post-buffers, zero-duration operations, a machine outage of
+   length 2): after accept, accept, accept the agent declines the only offer - the dispatch of the AGV to job 1, which lies ready on
+   top of machine 1's post-buffer while machine 1 sits out its outage with job 2 inside. The simulator jumps to the end of the outage
+   and creates, from that one state, the release of job 2 and the zero-travel dispatch to job 1; it applies the release first, so
+   job 2 lies on top of the LIFO post-buffer when the AGV is dispatched to job 1: not ready. Found while trying to prove the event
+   clause ev_dispatch along every run (the readiness conjunct is a fact about the state the offer was computed in, and the batch
+   invariant cannot carry it across a release); the implementation does the same on the same actions (known finding
+   F-C11-teleport-dispatch-buried, replayed by the C11 check on every run). *)
+Definition ur_prefix (fuel : nat) (acts : list Z) : option (result * mw) :=
+  match mw_reset ur_sigma ur_inst fuel ur_init 5%Z false (mkMw 5%Z 0 0 false) with
+  | MOk r m _ =>
+      fold_left (fun acc a => match acc with
+                              | Some (r, m) => match mw_step ur_sigma ur_inst fuel r m a with
+                                               | MOk r' m' _ => Some (r', m') | _ => None end
+                              | None => None end) acts (Some (r, m))
+  | _ => None
+  end.
+
+Theorem C11_dispatch_only_to_ready_jobs_refuted :
+  i_early ur_inst = false /\ wfs_b ur_inst ur_init = true /\ clock_b ur_init = true /\
+  exists r m r' m' lg, ur_prefix 200 [1; 1; 1]%Z = Some (r, m)
+    /\ length (r_offers r) = 1
+    /\ mw_step ur_sigma ur_inst 200 r m 0%Z = MOk r' m' lg
+    /\ scan_unready ur_inst (r_x r) lg = true.
+Proof.
+  split; [reflexivity|]. split; [vm_compute; reflexivity|]. split; [vm_compute; reflexivity|].
+  destruct (ur_prefix 200 [1; 1; 1]%Z) as [[r m]|] eqn:E; [|vm_compute in E; discriminate].
+  destruct (mw_step ur_sigma ur_inst 200 r m 0%Z) as [r' m' lg| | |] eqn:E2.
+  - exists r, m, r', m', lg. split; [reflexivity|]. vm_compute in E. inversion E; subst. vm_compute in E2. inversion E2; subst.
+    split; [vm_compute; reflexivity|]. split; [reflexivity|]. vm_compute. reflexivity.
+  - vm_compute in E. inversion E; subst. vm_compute in E2. discriminate.
+  - vm_compute in E. inversion E; subst. vm_compute in E2. discriminate.
+  - vm_compute in E. inversion E; subst. vm_compute in E2. discriminate.
+Qed.
+Print Assumptions C11_dispatch_only_to_ready_jobs_refuted.
 
 (* the non-terminating step of C05_refuted lies in the class too (FIFO standalone input buffer that holds all
    jobs, unordered post-buffers): always-accept does not finish there either *)
